@@ -59,8 +59,9 @@ Variants(S, s) ==
     [] s.k = "list" -> {A([i \in 1..n |-> Default(S, s.a)]) : n \in {m \in 0..2 : m >= s.b}}
     [] s.k = "set" -> {T(258, A(<<>>)) : x \in {1} \cap {y \in {1} : s.b = 0}} \cup {T(258, A(<<Default(S, s.a)>>)), A(<<Default(S, s.a)>>)}
     [] s.k = "setp" -> {T(258, [k |-> "iarr", xs |-> <<Default(S, s.a)>>])}
-    [] s.k = "map" -> {M([i \in 1..Len(fs) |-> <<U(FromSmall(fs[i].key)), Default(S, fs[i].t)>>]) :
-                        fs \in {SelectSeq(s.a, LAMBDA f : f.req \/ f.key = k) : k \in {s.a[j].key : j \in {i \in 1..Len(s.a) : ~s.a[i].req}}} \cup {s.a}}
+    \* (index sets, not sets of field sequences: TLC cannot order schema nodes of different shapes)
+    [] s.k = "map" -> LET MkMapV(sel) == LET ix == SelectSeq([i \in 1..Len(s.a) |-> i], LAMBDA i : i \in sel) IN M([q \in 1..Len(ix) |-> <<U(FromSmall(s.a[ix[q]].key)), Default(S, s.a[ix[q]].t)>>]) IN
+                      {MkMapV({j \in 1..Len(s.a) : s.a[j].req \/ j = k}) : k \in {i \in 1..Len(s.a) : ~s.a[i].req}} \cup {MkMapV(1..Len(s.a))}
     [] s.k \in {"table", "tables"} -> {M([i \in 1..n |-> <<Default(S, s.a), Default(S, s.b)>>]) : n \in {m \in 0..1 : m >= s.c}}
     [] s.k = "intmap" -> {M(<<>>), M(<< <<U(One), Default(S, s.a)>> >>), M(<< <<U(One), Default(S, s.a)>>, <<U(U64Max), Default(S, s.a)>> >>),
                           M(<< <<U(U64Max), Default(S, s.a)>>, <<U(One), Default(S, s.a)>> >>),
